@@ -373,6 +373,14 @@ func opMutate(g *G, name string) (interface{}, []uint64, int, interface{}) {
 			gn = twin
 			gn.Phenotype = nil
 			regMode = "matching-in-genome"
+			if name == "mutAddNode" && g.chance(0.6) {
+				// SEQUENCE on one Genome object within a generation: split a gene, re-enable it, split again while the
+				// innovation record is still listed (the guard 'this genome already has that node' must hold)
+				for _, x := range gn.Genes {
+					x.IsEnabled = true
+				}
+				regMode = "matching-in-genome-reenabled"
+			}
 		}
 	}
 	if name == "mutAddLink" || name == "mutAddNode" {
